@@ -22,6 +22,7 @@ import (
 	"net/http"
 	"net/http/httptest"
 	"os"
+	"slices"
 	"sort"
 	"strconv"
 	"strings"
@@ -2235,6 +2236,33 @@ func pfPropsFromJSON(data json.RawMessage) []*pfProp {
 	return out
 }
 
+// pfListsSupported: the error data of a -32022 answer is {"supported":[…],"requested":…} with a non-empty list of
+// versions this SDK implements.
+func pfListsSupported(body []byte) bool {
+	var resp struct {
+		Error *struct {
+			Data *UnsupportedProtocolVersionData `json:"data"`
+		} `json:"error"`
+	}
+	if json.Unmarshal(body, &resp) != nil || resp.Error == nil || resp.Error.Data == nil {
+		return false
+	}
+	d := resp.Error.Data
+	if len(d.Supported) == 0 {
+		return false
+	}
+	for _, v := range d.Supported {
+		ok := false
+		for _, k := range supportedProtocolVersions {
+			ok = ok || v == k
+		}
+		if !ok {
+			return false
+		}
+	}
+	return true
+}
+
 // run executes the case against the real handler and returns (op tokens, observation, tags).
 func (c *pfHTTPCase) run() (op, obs string, tags []string) {
 	cnt := &pfCounters{}
@@ -2563,6 +2591,38 @@ func (c *pfHTTPCase) run() (op, obs string, tags []string) {
 			}
 			if json.Unmarshal(rec.Body.Bytes(), &resp) == nil && resp.Error != nil {
 				code = strconv.FormatInt(resp.Error.Code, 10)
+				if resp.Error.Code == CodeUnsupportedProtocolVersion && !pfListsSupported(rec.Body.Bytes()) {
+					// "unsupported-version (-32022, listing the supported versions)": an answer with that code whose data
+					// does not list versions of this SDK is printed as another code
+					code = "-3202299"
+				}
+			}
+		}
+		// A request whose version header names an unknown version that is not older than 2026-07-28 passes the HTTP front
+		// door so that the session can refuse it with JSON-RPC -32022 / -32602.  On an established stateful session that
+		// answer travels as an event of the POST's stream (HTTP 200), not as an HTTP 400: for these requests the error code
+		// of a 200 answer (SSE event or JSON body) is printed too.
+		if hv := c.version; rec.Code == http.StatusOK && c.kind != "sse" && hv >= protocolVersion20260728 && !slices.Contains(supportedProtocolVersions, hv) {
+			payload := rec.Body.Bytes()
+			if strings.HasPrefix(rec.Header().Get("Content-Type"), "text/event-stream") {
+				payload = nil
+				for _, line := range bytes.Split(rec.Body.Bytes(), []byte("\n")) {
+					if rest, ok := bytes.CutPrefix(line, []byte("data:")); ok && bytes.Contains(rest, []byte(`"error"`)) {
+						payload = bytes.TrimSpace(rest)
+					}
+				}
+			}
+			var resp struct {
+				Error *struct {
+					Code int64 `json:"code"`
+				} `json:"error"`
+			}
+			if payload != nil && json.Unmarshal(payload, &resp) == nil && resp.Error != nil &&
+				(resp.Error.Code == CodeUnsupportedProtocolVersion || resp.Error.Code == jsonrpc.CodeInvalidParams) {
+				code = strconv.FormatInt(resp.Error.Code, 10)
+				if resp.Error.Code == CodeUnsupportedProtocolVersion && !pfListsSupported(payload) {
+					code = "-3202299"
+				}
 			}
 		}
 		allow := "-"
@@ -2724,7 +2784,7 @@ func pfCanon(j *pfJ) string {
 
 // ---------------------------------------------------------------------------------------------
 
-var pfKinds = []string{"accepts", "codec", "decode", "unprim", "peq", "annot", "gen", "vph", "http", "e2e", "params", "seq"}
+var pfKinds = []string{"accepts", "codec", "decode", "unprim", "peq", "annot", "gen", "vph", "http", "e2e", "params", "seq", "vm"}
 
 func pfRngFor(seed int64, kind string, idx int) *rand.Rand {
 	k := 0
@@ -2754,6 +2814,10 @@ func pfRunCase(t *testing.T, out *verifOut, kind string, seed int64, idx int, ep
 	case "http":
 		c := g.httpCase()
 		op, obs, tags = c.run()
+	case "vm":
+		// a row of the version matrix (zz_verif_preflight_versions_test.go): the index is the row
+		pfRunVersionRow(out, idx, extraTag)
+		return
 	case "seq":
 		// one session over time (zz_verif_preflight_seq_test.go); records carry no @-token: their replay is literal
 		pfqRun(t, out, cs, "", g.pfqGenerate(), extraTag)
